@@ -69,7 +69,7 @@ def run(ctx):
     mcq, mcg = dict(MC_Q), dict(MC_GZ)
     if not ctx.quick:
         mcq.update(RLs="{1, 2}", FRs="{1, 2, 3, 4, 9, 10, 13}", BODYs="{1, 2, 3, 4, 5, 6, 7, 8, 24}", XHs="{1, 2}", Sizes="{1, 2, 3, 4, 8}",
-                   MaxBodies="{0, 2, 3, 4, 1000000}", MaxHdrs="{27, 28, 46, 47, 65536}", Overrides="{2000000001, 2, 3, 4}")
+                   MaxBodies="{0, 2, 3, 4, 1000000}", MaxHdrs="{27, 28, 65536}", Overrides="{2000000001, 2, 3}")
         mcg.update(MCGz="{1, 2, 3}", MaxBodies="{3, 23, 24, 40, 41, 1000000}", Overrides="{2000000001, 40, 41}", Sizes="{1, 2, 7}")
     H.mc(ctx, "MC_HttpReader", "MC_HttpReader.cfg", overrides=mcq)
     H.mc(ctx, "MC_HttpReader", "MC_HttpReader.cfg", overrides=mcg)
@@ -79,7 +79,7 @@ def run(ctx):
     H.replay_server(ctx, plain, apps=("delegate", "callback"))
     H.replay_server(ctx, ovr, apps=("delegate",))          # a request callback cannot set a per-request limit
     ctx.cov["exhaustive"] = True
-    n = ctx.pick(150, 20000)
+    n = ctx.pick(150, 5000)
     traces = framework.pool_map(record_random, [(i + 1, ctx.seed * 1000003 + 404 + i) for i in range(n)])
     H.validate(ctx, traces, H.classify_server)
     ctx.cov["rule"] = ("%d (wire, limit) cases: limits at header/body size -1/0/+1 (server limit and per-request override), gzip "
